@@ -2,7 +2,7 @@
     bisimulation of proofs/C05_Proof.v; plus the fixed-method part. *)
 From Coq Require Import Lia.
 Require Import Riti.model.Base Riti.model.Chars Riti.model.Split Riti.model.Rank Riti.model.Layout Riti.model.Phonetic
-        Riti.model.FixedCompose Riti.model.FixedSuggest Riti.proofs.Split_Proof Riti.proofs.Rank_Proof Riti.proofs.Phonetic_Proof Riti.proofs.C05_Proof.
+        Riti.model.FixedCompose Riti.model.FixedSuggest Riti.proofs.Split_Proof Riti.proofs.Rank_Proof Riti.proofs.Phonetic_Proof Riti.proofs.C02_Proof Riti.proofs.C05_Proof.
 
 Section C06.
 Variable Q : oracles.
@@ -160,6 +160,30 @@ Lemma x_ongoing_spec s : x_ongoing s = true <-> (x_rb s <> [] \/ x_pend s <> Non
 Proof.
   unfold x_ongoing. destruct (x_rb s), (x_pend s); cbn; split; intros H; try reflexivity; try discriminate;
     try (left; discriminate); try (right; discriminate); destruct H; congruence.
+Qed.
+
+(** fixed method: a backspace that returns an empty suggestion leaves nothing behind either *)
+Lemma rev_nonempty {A} (l : list A) : l <> [] -> rev l <> [].
+Proof. destruct l as [|a l]; [congruence|]. intros _ H. apply (f_equal (@length A)) in H. cbn [rev] in H. rewrite app_length in H. cbn in H. lia. Qed.
+
+Lemma x_create_not_empty c s : x_rb s <> [] -> out_empty (snd (x_create Q c s)) = false.
+Proof.
+  intros Hr. unfold x_create. destruct (x_suggest c); cbn [snd out_empty].
+  - pose proof (dictionary_suggestion_nonempty Q c (x_buffer s) (x_typed s)) as Hn.
+    destruct (dictionary_suggestion Q c (x_buffer s) (x_typed s)); [congruence | reflexivity].
+  - unfold x_buffer. pose proof (rev_nonempty (x_rb s) Hr) as Hn. destruct (rev (x_rb s)); [congruence | reflexivity].
+Qed.
+
+Lemma x_empty_backspace_ends c s ctrl :
+  out_empty (snd (x_backspace Q c s ctrl)) = true -> x_ongoing (fst (x_backspace Q c s ctrl)) = false.
+Proof.
+  unfold x_backspace. destruct (x_rb s) as [|a rb] eqn:Er.
+  - destruct ctrl; (destruct (x_pend s) eqn:Ep; [intros _; reflexivity | intros _; cbn [fst]; unfold x_ongoing; rewrite Er, Ep; reflexivity]).
+  - destruct ctrl; [intros _; reflexivity|].
+    destruct (x_pend s).
+    + rewrite x_create_not_empty by (cbn [x_rb]; discriminate). discriminate.
+    + destruct rb as [|b rb]; [intros _; reflexivity|].
+      rewrite x_create_not_empty by (cbn [x_rb]; discriminate). discriminate.
 Qed.
 
 End C06.
